@@ -31,6 +31,10 @@ R08.9 variable-length bounds on the length skeleton (lib/lenrun.py): for every b
 R08.11 exactly len output bytes, the other half: on the same runs the stores through `out` (mask extents resolved)
       cover every byte of [0, len) - no output byte is left unwritten.  Runs with a store whose mask or address the
       skeleton does not determine are not judged for coverage.
+R08.12 the 64-bit length stays 64 bits wide: in every body with a uint64_t length, a register that certainly holds the
+      length argument or what 64-bit subtractions / additions of constants / masks that keep the high bits have
+      made of it (must-analysis) is never the destination of a 32-bit read-modify-write instruction - that would
+      clear bits 63..32 and a call with len >= 4 GiB would stop early.
 R08.10 hash kernels read whole blocks only: for every kernel the assembly managers call, with 1..4 blocks and every
       lane pointer of the argument block taken as a distinct buffer, the length skeleton's accesses through a lane
       pointer lie within [0, blocks * block size) - no software-pipelined load of a block that does not exist.
@@ -226,6 +230,49 @@ def worker(lib, objname, extra):
                 add("R08.9", name, "bounds:len=%d" % L, "with len = %d%s `%s` %s bytes %d..%d of `%s`, which has %d byte(s)" % (L, (" and a pending partial block of %d bytes" % PB) if PB else "", i.text.strip(), "writes" if "w" in rw else "reads", off, off + size - 1, tag, L), i.addr, key[1])
             else:
                 out["lr_ok"] = out.get("lr_ok", 0) + 1
+        # ---- R08.12 the length carrier is never narrowed
+        l64 = [k_ for k_, s_ in enumerate(sig) if s_ and s_[0] in ("len", "len_bytes", "N") and "64" in (s_[2] or "") and k_ < 6]
+        if l64:
+            PP, WW = x86.PARENT, x86.WIDTH
+            st_in = {f.entry: frozenset([ARGROOTS[l64[0]]])}
+            work12 = [f.entry]
+            bad12 = {}
+            while work12:
+                b12 = work12.pop()
+                full = set(st_in[b12])
+                for i in f.blocks[b12]:
+                    defs = [d for d in list(i.explicit_defs()) + list(i.idefs) if d in PP]
+                    uses = [PP[u] for u in i.reg_uses_nomem() if u in PP]
+                    op = i.op
+                    newfull = set()
+                    for d in defs:
+                        if PP[d] in full and WW[d] == 32 and PP[d] in uses and not op.startswith(("CMP", "TEST")) and not (op.startswith(("XOR32rr", "SUB32rr")) and i.reg(1) == i.reg(2)):
+                            bad12.setdefault(i.addr, i)
+                    if i.mem < 0 and op == "MOV64rr" and PP.get(i.reg(1)) in full:
+                        newfull.add(PP[i.reg(0)])
+                    elif i.mem < 0 and op in ("SUB64ri8", "SUB64ri32", "ADD64ri8", "ADD64ri32") and PP.get(i.reg(0)) in full:
+                        newfull.add(PP[i.reg(0)])
+                    elif i.mem < 0 and op in ("AND64ri8", "AND64ri32") and PP.get(i.reg(0)) in full and (i.imm(2) or 0) < 0:
+                        newfull.add(PP[i.reg(0)])
+                    for d in defs:
+                        full.discard(PP[d])
+                    full |= newfull
+                for s12 in f.succ.get(b12, []):
+                    old12 = st_in.get(s12)
+                    if old12 is None:
+                        st_in[s12] = frozenset(full)
+                        work12.append(s12)
+                    else:
+                        j12 = old12 & full
+                        if j12 != old12:
+                            st_in[s12] = j12
+                            work12.append(s12)
+            out["l64_bodies"] = out.get("l64_bodies", 0) + 1
+            if bad12:
+                a12 = sorted(bad12)[0]
+                add("R08.12", name, "length-narrowed", "`%s` is a 32-bit operation on the register that carries the 64-bit length: bits 63..32 are cleared, so a call with len >= 4 GiB processes only part of the data (%d such instruction(s))" % (bad12[a12].text.strip(), len(bad12)), a12, key[1])
+            else:
+                out["l64_ok"] = out.get("l64_ok", 0) + 1
         # ---- R08.8 mask symmetry of tails
         if len(bufregs) == 2:
             inr = [k_ for k_, v_ in bufregs.items() if v_ == "in"][0]
@@ -397,7 +444,7 @@ def run(chk):
         tot["indexed_table"] += r.get("indexed_table", 0)
         tot["zero_len"] += r.get("zero_len", 0)
         tot["zero_len_ok"] += r.get("zero_len_ok", 0)
-        for k_ in ("mask_bodies", "masked_stores", "mask_ok", "lr_judged", "lr_notjudged", "lr_acc", "lr_bodies", "lr_ok", "lr_cov", "lr_cov_ok"):
+        for k_ in ("mask_bodies", "masked_stores", "mask_ok", "lr_judged", "lr_notjudged", "lr_acc", "lr_bodies", "lr_ok", "lr_cov", "lr_cov_ok", "l64_bodies", "l64_ok"):
             tot[k_] += r.get(k_, 0)
         for w_ in r.get("lr_why", []):
             if len(chk.notes) < 12:
@@ -416,6 +463,8 @@ def run(chk):
     chk.obligations["R08.8"] = [tot["mask_bodies"], tot["mask_ok"]]
     chk.obligations["R08.9"] = [tot["lr_bodies"], tot["lr_ok"]]
     chk.obligations["R08.11"] = [tot["lr_bodies"], tot["lr_cov_ok"]]
+    chk.obligations["R08.12"] = [tot["l64_bodies"], tot["l64_ok"]]
+    chk.floor("bodies with a 64-bit length checked for narrowing", tot["l64_bodies"], 100)
     chk.floor("length-skeleton runs judged for output coverage", tot["lr_cov"], 20000)
     chk.floor("(body, length) runs followed to a return on the length skeleton", tot["lr_judged"], 20000)
     chk.floor("accesses through in / out checked against len", tot["lr_acc"], 150000)
